@@ -497,6 +497,19 @@ impl Run {
                 return;
             }
         }
+        if violation.kind.starts_with("harness-") {
+            // the harness's own reference (writer, model) failed its cross-check: not a verdict about lopdf
+            eprintln!("harness self-check failed in {} / {}: {} {}", self.prop, campaign, violation.kind, truncate(&violation.detail, 3000));
+            self.inconclusive.push(format!("{}: {}: {}", campaign, violation.kind, truncate(&violation.detail, 300)));
+            let dir = verif_root().join("replays").join(self.prop);
+            let _ = std::fs::create_dir_all(&dir);
+            let _ = std::fs::write(
+                dir.join(format!("harness-{}.json", campaign)),
+                serde_json::to_string_pretty(&json!({"property": self.prop, "campaign": campaign, "kind": violation.kind, "detail": violation.detail,
+                    "case": serde_json::to_value(case).unwrap_or(Value::Null)})).unwrap(),
+            );
+            return;
+        }
         let body = json!({
             "property": self.prop,
             "campaign": campaign,
